@@ -94,7 +94,10 @@ theorem snapStep_spec (rc : State → Res State) {ord : Order} (ho : OrderOK ord
     obtain ⟨rok, rfail, rpanic⟩ := runDiseq_spec ho hs1 t1 i1 ps
     refine ⟨fun st' h => ?_, fun h γ hx hsem => ?_, rpanic⟩
     · have a := rok st' h
-      refine ⟨a.sig.trans h1, a.tree, a.ids, fun γ hx => ?_⟩
+      have hnv1 : st1.nextVar = st.nextVar := by
+        have := take_nextVar st p.1
+        rw [hc] at this; exact this
+      refine ⟨a.sig.trans h1, a.tree, a.ids, fun γ hx => ?_, a.nv.trans hnv1⟩
       rw [a.sem γ (by rw [h1]; exact hx), ← sem1 γ]
       simp
     · exact rfail h γ (by rw [h1]; exact hx) ((sem1 γ).mp hsem).2
